@@ -161,7 +161,15 @@ func yieldSites(p *packages.Package) []yieldSite {
 	for _, f := range p.Syntax {
 		for _, d := range f.Decls {
 			fd, ok := d.(*ast.FuncDecl)
-			if !ok || fd.Body == nil || !strings.Contains(strings.ToLower(fd.Name.Name), "yield") && fd.Name.Name != "requisitionMachine" {
+			if !ok || fd.Body == nil {
+				continue
+			}
+			// the yield functions, and helper methods of the row types that configure a machine and hand it out
+			base := "row"
+			rt, rn := recvTypeName(fd)
+			if strings.HasSuffix(rt, "SlabRow") && rn != "" {
+				base = rn
+			} else if !strings.Contains(strings.ToLower(fd.Name.Name), "yield") && fd.Name.Name != "requisitionMachine" {
 				continue
 			}
 			var blocks [][]ast.Stmt
@@ -199,7 +207,7 @@ func yieldSites(p *packages.Package) []yieldSite {
 				if !ok || un.Op != token.AND {
 					continue
 				}
-				typ := fieldOf(un.X, "row")
+				typ := fieldOf(un.X, base)
 				if typ == "" {
 					continue
 				}
@@ -212,7 +220,7 @@ func yieldSites(p *packages.Package) []yieldSite {
 					for _, l := range as.Lhs {
 						// row.T.f = …   or   local.f = …
 						if sel, ok := l.(*ast.SelectorExpr); ok {
-							if fieldOf(sel.X, "row") == typ {
+							if fieldOf(sel.X, base) == typ {
 								if inner, ok := sel.X.(*ast.SelectorExpr); ok && inner.Sel.Name == typ {
 									got[sel.Sel.Name] = true
 								}
